@@ -12,20 +12,21 @@
             pre-set dictionaries, no bare lazy Iter (list()/tuple() of an Iter is in);
       [pG]  everything except Coalesce (D20), Template (D13) and an Option with both a default
             and a domain (D4).
-    Cold/warm caches are NOT covered by these theorems (reference instance = caching disabled);
-    the harness covers them (PARTIAL). *)
+    Warm caches: [C10_warm_agreement] composes C01's history theorem with the agreement on [pA]
+    (inside C01's coverage [hist_ok]); outside it the harness covers cold/warm caches (PARTIAL). *)
 From Coq Require Import List NArith ZArith Bool.
 Import ListNotations.
 From LV Require Import Model.Base Model.Template Model.Eval Model.Derived Model.EvalRun
-  Proofs.AgreeProofs Proofs.C11Proofs.
+  Proofs.TemplateFrame Proofs.CleanProofs Proofs.AgreeProofs Proofs.C11Proofs Proofs.CacheSim Proofs.C10C01.
 
 (** ** "For any expression whose dataset bodies are total and whose option values lie in their
     declared domains, validate(o), keys(o) and evaluate(o) succeed or fail together."
     Bodies total: [total_u] (user code never raises) and [clean_u] (it fabricates no deferred
     failure).  Values in their domains: evaluate does not fail with a domain error.  Dictionary:
-    unique keys, every value resolves, no templated string values. *)
+    unique keys, every value resolves (templated values included), no option name of the range the
+    model reserves for Template parameters ([no_par]: names >= 10^6, never generated). *)
 Theorem C10_agree_total : forall u fuel e o,
-  total_u u -> clean_u u -> fragP pA e = true -> wf_dict o = true -> resolves fuel o -> untemplated o ->
+  total_u u -> clean_u u -> fragP pA e = true -> wf_dict o = true -> resolves fuel o -> no_par o = true ->
   (forall ee, fst (eval_nc u fuel e o) <> Err CDomain ee) ->
   okb (fst (validate_nc u fuel e o)) = okb (fst (eval_nc u fuel e o)) /\
   okb (fst (keys_nc u fuel e o)) = okb (fst (eval_nc u fuel e o)).
@@ -35,12 +36,80 @@ Print Assumptions C10_agree_total.
 (** the same without the premise on domains: validate and evaluate always agree; keys fails only
     if evaluate does; evaluate failing for any reason but a domain error makes keys fail *)
 Theorem C10_agree : forall u fuel e o,
-  total_u u -> clean_u u -> fragP pA e = true -> wf_dict o = true -> resolves fuel o -> untemplated o ->
+  total_u u -> clean_u u -> fragP pA e = true -> wf_dict o = true -> resolves fuel o -> no_par o = true ->
   okb (fst (validate_nc u fuel e o)) = okb (fst (eval_nc u fuel e o)) /\
   (okb (fst (keys_nc u fuel e o)) = false -> okb (fst (eval_nc u fuel e o)) = false) /\
   (forall c ee, fst (eval_nc u fuel e o) = Err c ee -> c <> CDomain -> okb (fst (keys_nc u fuel e o)) = false).
 Proof. exact agree_nc. Qed.
 Print Assumptions C10_agree.
+
+(** The same at the level of CAUSES: validate fails with the cause evaluate fails with; keys fails
+    with the cause (and EvaluationError-ness) evaluate and validate fail with — unless evaluate
+    fails on a value outside its declared domain (keys does not look at domains). *)
+Theorem C10_same_cause : forall u fuel e o,
+  total_u u -> clean_u u -> fragP pA e = true -> wf_dict o = true -> resolves fuel o -> no_par o = true ->
+  (forall c ee, rs (validate unit nc_find nc_store cfg_nc u fuel (fun _ _ => true) e o) = Err c ee ->
+     rs (eval unit nc_find nc_store cfg_nc u fuel (fun _ _ => true) e o) = Err c true) /\
+  (forall c ee, rs (keys unit nc_find nc_store cfg_nc u fuel (fun _ _ => true) e o) = Err c ee ->
+     (rs (eval unit nc_find nc_store cfg_nc u fuel (fun _ _ => true) e o) = Err c true /\
+      rs (validate unit nc_find nc_store cfg_nc u fuel (fun _ _ => true) e o) = Err c ee) \/
+     exists ee', rs (eval unit nc_find nc_store cfg_nc u fuel (fun _ _ => true) e o) = Err CDomain ee').
+Proof. exact cause_agreement. Qed.
+Print Assumptions C10_same_cause.
+
+(** the premise on domains is needed for the causes: f(Option('A', domain=[1,2]), Option('B')) on
+    {'A': 5} — keys fails for the missing B, evaluate fails earlier on A's value *)
+Theorem C10_same_cause_refuted_domains :
+  fragP pA dom_expr = true /\
+  rs (keys unit nc_find nc_store cfg_nc u_total 40 (fun _ _ => true) dom_expr o_A5) = Err (CKey kB) true /\
+  rs (eval unit nc_find nc_store cfg_nc u_total 40 (fun _ _ => true) dom_expr o_A5) = Err CDomain true.
+Proof. exact same_cause_needs_domains. Qed.
+Print Assumptions C10_same_cause_refuted_domains.
+
+(** ** Warm caches.  C01's history theorem (Proofs/CacheSim.v) ASSUMES, per cache site and
+    dictionary, the agreement Cached relies on ([agree_at]).  On C10's fragment it is a theorem: *)
+Theorem C10_discharges_C01_agreement : forall u fuel b o,
+  total_u u -> clean_u u -> fragP pA b = true -> wf_dict o = true -> resolves fuel o -> no_par o = true ->
+  (forall ee, rs (eval unit nc_find nc_store cfg_nc u fuel (fun _ _ => true) b o) <> Err CDomain ee) ->
+  agree_at u fuel b o.
+Proof. exact agree_at_of_C10. Qed.
+Print Assumptions C10_discharges_C01_agreement.
+
+(** … so the history theorem holds with [okd10] in place of [okd] at the cache sites: the cached
+    expressions are in [pA], every value resolves, no cached expression fails on a value outside
+    its domain, and what [okd] asks besides the agreement ([clean_at], no stored generator, stable
+    effects switch).  [scohP P] is [scoh] with [P] for [okd]. *)
+Theorem C10_history_transparent_without_agreement : forall u fuel sites esw,
+  total_u u -> clean_u u -> forall cfg site_ok h,
+  hist_ok10 u fuel sites esw h -> run_hist u fuel cfg site_ok h [] = map (ref_op u fuel) h.
+Proof. exact history_transparent_C10. Qed.
+Print Assumptions C10_history_transparent_without_agreement.
+
+(** … and C10's agreement holds on the long-lived cached graph: after ANY covered history (any
+    sound store), validate, keys and evaluate asked of a [pA] expression ON THE CACHED GRAPH answer
+    what the cache-free graph answers, hence agree *)
+Theorem C10_warm_agreement : forall u fuel sites esw,
+  total_u u -> clean_u u -> forall cfg site_ok h s e o,
+  Sound u fuel sites esw s ->
+  hist_ok u fuel sites esw (h ++ [HValidate e o; HKeys e o; HEval e o]) ->
+  fragP pA e = true -> wf_dict o = true -> resolves fuel o -> no_par o = true ->
+  exists rv rk re,
+    run_hist u fuel cfg site_ok (h ++ [HValidate e o; HKeys e o; HEval e o]) s =
+      map (ref_op u fuel) h ++ [OValidate rv; OKeys rk; OEval re] /\
+    okb rv = okb re /\ (okb rk = false -> okb re = false) /\
+    (forall c ee, re = Err c ee -> c <> CDomain -> okb rk = false) /\
+    ((forall ee, re <> Err CDomain ee) -> okb rk = okb re).
+Proof. exact warm_agreement. Qed.
+Print Assumptions C10_warm_agreement.
+
+(** non-vacuity: a cached switch asked along a history (validate, evaluate, keys, validate,
+    evaluate on one long-lived graph) satisfies [hist_ok10]; the cached run answers: *)
+Example C10_ex_history_covered :
+  okd10 u_total 40 site50 false o_Q1 /\ hist_ok10 u_total 40 site50 false hist_demo /\
+  run_hist u_total 40 cfg0 (fun _ _ => true) hist_demo [] =
+    [OValidate (Ok tt); OEval (Ok (VJ JNull)); OKeys (Ok [kQ]); OValidate (Ok tt); OEval (Ok (VJ JNull))].
+Proof. exact (conj okd10_demo (conj hist_demo_ok hist_demo_runs)). Qed.
+Print Assumptions C10_ex_history_covered.
 
 (** ** "when bodies may raise, a passing validate(o) still guarantees that evaluate(o) cannot
     fail because of a missing option" — user code arbitrary (it may raise anywhere); it only must
@@ -97,12 +166,12 @@ Print Assumptions C10_validate_guards_missing_refuted_D4.
 (** D9: an effect's callback reads an option: total bodies, no domains, keys succeeds while
     validate and evaluate fail *)
 Theorem C10_agree_total_refuted_D9 :
-  total_u u_total /\ wf_dict o_A1 = true /\ resolves 40 o_A1 /\ untemplated o_A1 /\
+  total_u u_total /\ wf_dict o_A1 = true /\ resolves 40 o_A1 /\ no_par o_A1 = true /\
   fst (keys_nc u_total 40 d9_expr o_A1) = Ok [kA] /\
   fst (validate_nc u_total 40 d9_expr o_A1) = Err (CKey kP) true /\
   fst (eval_nc u_total 40 d9_expr o_A1) = Err (CKey kP) true.
 Proof.
-  exact (conj u_total_total (conj eq_refl (conj resolves_o_A1 (conj (untemplated_single 10 1) (conj eq_refl (conj eq_refl eq_refl)))))).
+  exact (conj u_total_total (conj eq_refl (conj resolves_o_A1 (conj eq_refl (conj eq_refl (conj eq_refl eq_refl)))))).
 Qed.
 Print Assumptions C10_agree_total_refuted_D9.
 
@@ -113,14 +182,22 @@ Theorem C10_agree_total_refuted_D1 :
 Proof. exact (conj u_total_total (conj eq_refl eq_refl)). Qed.
 Print Assumptions C10_agree_total_refuted_D1.
 
+(** the side condition [no_par] is needed (a model artefact: the reserved parameter names) *)
+Theorem C10_agree_refuted_without_no_par :
+  no_par o_par = false /\
+  fst (keys_nc u_total 40 (EOption kA None None) o_par) = Err CUnmodelled false /\
+  fst (eval_nc u_total 40 (EOption kA None None) o_par) = Ok (VJ (JInt 5)).
+Proof. exact no_par_needed. Qed.
+Print Assumptions C10_agree_refuted_without_no_par.
+
 (** ** non-vacuity *)
 Example C10_ex_fragments : fragP pA sw_expr = true /\ fragP pG sw_expr = true /\ fragP pA disp_expr = true.
 Proof. repeat split; reflexivity. Qed.
 Print Assumptions C10_ex_fragments.
 Example C10_ex_side_conditions :
-  total_u u_total /\ clean_u u_total /\ wf_dict o_Q1 = true /\ resolves 40 o_Q1 /\ untemplated o_Q1 /\ untemplated [].
+  total_u u_total /\ clean_u u_total /\ wf_dict o_Q1 = true /\ resolves 40 o_Q1 /\ no_par o_Q1 = true /\ no_par [] = true.
 Proof.
-  exact (conj u_total_total (conj u_total_clean (conj eq_refl (conj resolves_o_Q1 (conj (untemplated_single 14 1) untemplated_nil))))).
+  exact (conj u_total_total (conj u_total_clean (conj eq_refl (conj resolves_o_Q1 (conj eq_refl eq_refl))))).
 Qed.
 Print Assumptions C10_ex_side_conditions.
 Example C10_ex_all_succeed :
@@ -128,6 +205,13 @@ Example C10_ex_all_succeed :
   fst (eval_nc u_total 40 sw_expr o_Q1) = Ok (VJ JNull).
 Proof. repeat split; reflexivity. Qed.
 Print Assumptions C10_ex_all_succeed.
+(** … also on a dictionary with a templated value: {'A': '{B}', 'B': 1} takes branch 1 (Option('B')) *)
+Example C10_ex_templated_dictionary :
+  wf_dict o_T = true /\ resolves 40 o_T /\ no_par o_T = true /\
+  fst (validate_nc u_total 40 sw_expr o_T) = Ok tt /\ fst (keys_nc u_total 40 sw_expr o_T) = Ok [kB; kA; kB] /\
+  fst (eval_nc u_total 40 sw_expr o_T) = Ok (VJ (JInt 1)).
+Proof. exact (conj eq_refl (conj resolves_o_T (conj eq_refl (conj eq_refl (conj eq_refl eq_refl))))). Qed.
+Print Assumptions C10_ex_templated_dictionary.
 Example C10_ex_all_fail :
   fst (validate_nc u_total 40 sw_expr o_A1) = Err (CKey kB) true /\ fst (keys_nc u_total 40 sw_expr o_A1) = Err (CKey kB) true /\
   fst (eval_nc u_total 40 sw_expr o_A1) = Err (CKey kB) true.
